@@ -1,6 +1,8 @@
 (* Properties_C01.v — rwp::Resource: a writer never shares the lock.
    Only statements, each closed by [exact <lemma of ResourceProofs>], and Print Assumptions. *)
 From Coq Require Import List ZArith Bool Lia.
+From Tulz Require Import RaceModel AtomicSections.
+From TulzGen Require Import Accesses.
 From Tulz Require Import Common ResourceModel ResourceInv ResourceProofs.
 Import ListNotations.
 Local Open Scope Z_scope.
@@ -42,3 +44,15 @@ Example C01_nonvacuous :
   /\ activeCount (rs (run true (init 4)
      [Req 0 Wr; Req 1 Rd; Req 2 Rd; Req 3 Wr; Rel 0; Notify 0; Wake 1; Rel 1])) = 1.
 Proof. vm_compute. split; reflexivity. Qed.
+
+(* The premise of the atomic-step model, checked on the access rows the translator extracted from the
+   CURRENT source (TulzGen.Accesses, regenerated on every run): every access to the Resource's state in
+   Resource::lock / Resource::unlock (and the helpers they call) is made holding m_mutex, hence no two
+   threads are ever inside those sections at once (AtomicSections.v). *)
+Theorem C01_sections_atomic : forall n os t1 t2 a1 a2,
+  t1 <> t2 -> In a1 TulzGen.Accesses.extracted_accesses -> In a2 TulzGen.Accesses.extracted_accesses ->
+  RaceModel.a_comp a1 = resource_component -> RaceModel.a_comp a2 = resource_component ->
+  RaceModel.can_perform (RaceModel.lrun (RaceModel.linit n) os) t1 a1 ->
+  RaceModel.can_perform (RaceModel.lrun (RaceModel.linit n) os) t2 a2 -> False.
+Proof. apply (AtomicSections.sections_exclusive resource_component resource_mutex). vm_compute. reflexivity. Qed.
+Print Assumptions C01_sections_atomic.
